@@ -243,6 +243,8 @@ def contracts_(c, args, ctx):
         return args[0]
     if re.match(r"Vec::<u8>::push$", c):
         d(args[0]).b.append(norm(args[1])); return None
+    if re.match(r"Vec::<u8>::(reserve|reserve_exact|shrink_to_fit)$", c):
+        return None
     if re.match(r"Vec::<u8>::clear$", c):
         del d(args[0]).b[:]; return None
     if re.match(r"Vec::<u8>::new$", c) or c == "Vec::<u8>::with_capacity":
@@ -252,7 +254,12 @@ def contracts_(c, args, ctx):
     if re.match(r"<Vec<u8> as Deref(Mut)?>::deref(_mut)?$", c):
         return d(args[0])
     if re.search(r"as TextCodec>::encode$", c):
-        return core.Enum("Ok", [Sink(list(d(args[1]).b))])          # default repertoire: the instances' characters are their own encoding
+        src = list(d(args[1]).b)
+        if all(isinstance(x, int) for x in src) and any(x >= 0x80 for x in src):
+            # concrete non-ASCII text under the default character set: dicom-rs writes ISO 8859-1 (checked against the real encoder by the native replay)
+            try: return core.Enum("Ok", [Sink(list(bytes(src).decode("utf-8").encode("latin-1")))])
+            except UnicodeError: return core.Enum("Err", [("opaque", "EncodeTextError")])
+        return core.Enum("Ok", [Sink(src)])          # default repertoire: the instances' characters are their own encoding
     if re.search(r"::fail::<|Snafu::fail$", c):
         return core.Enum("Err", [("opaque", c)])
     if re.search(r"as ResultExt<.*>>::context::<", c):
@@ -337,6 +344,12 @@ def value_instances(tier):
             out.append(("Str", vrn, 8, n))
     for vrn, lens in (("UI", (1, 1)), ("LO", (1, 2)), ("CS", (2, 2)), ("IS", (1, 1, 1))):
         out.append(("Strs", vrn, 8, lens))
+    # concrete non-ASCII text: the encoded length (ISO 8859-1) differs from the UTF-8 length of the Rust string
+    out.append(("StrC", "LO", 8, "M\u00fcller"))
+    out.append(("StrC", "PN", 8, "\u00fc"))
+    out.append(("StrsC", "LO", 8, ("M\u00fc", "x")))
+    out.append(("StrsC", "PN", 8, ("M\u00fcller^Hans",)))
+    out.append(("StrsC", "SH", 8, ("\u00e9\u00e8", "\u00fc")))
     out.append(("Tags", "AT", 16, 1))
     out.append(("Empty", "LO", 0, 0))
     return out
@@ -348,7 +361,7 @@ def elements(rep, tier, nat, EPE):
         ENC["kind"] = codec
         insts = value_instances(tier)
         if tier == "quick" and codec != "ele":
-            insts = [i for i in insts if i[0] in ("U8", "U16", "Str", "Strs", "Tags") and (i[0] != "Str" or i[1] in ("UI", "LO"))]
+            insts = [i for i in insts if i[0] in ("U8", "U16", "Str", "Strs", "Tags", "StrsC") and (i[0] != "Str" or i[1] in ("UI", "LO"))]
         for (variant, vrn, bits, shape) in insts:
             box = {}
 
@@ -358,7 +371,11 @@ def elements(rep, tier, nat, EPE):
                 pc.append(g != 0xFFFE)
                 pc.append(Not(And(g == 0x0008, e == 0x0005)))
                 hl = BitVec("hdr_len", 32)                       # the length the caller wrote into the header: must be ignored
-                if variant == "Str":
+                if variant == "StrC":
+                    val = core.Enum("Str", [S(shape)]); content = list(shape.encode("latin-1"))
+                elif variant == "StrsC":
+                    val = core.Enum("Strs", [core.VecV([S(x) for x in shape])]); content = list("\\".join(shape).encode("latin-1"))
+                elif variant == "Str":
                     val = core.Enum("Str", [sym_text("s", shape, pc)]); content = list(val.f[0].b)
                 elif variant == "Strs":
                     strs = [sym_text("s%d" % k, n, pc) for k, n in enumerate(shape)]
@@ -424,7 +441,7 @@ def elements(rep, tier, nat, EPE):
             name = "%s element, value %s%s through encode_primitive_element [%s]: header length even and exact, VR-specific padding, bytes_written exact" % (vrn, variant, repr(shape), codec)
             res = core.explore(build)
             rep.nontrivial += res["paths"]
-            finish(rep, nat, name, res, box, "elem", [codec, vrn, variant, shape], "c04_elem_%s_%s_%s_%s" % (codec, vrn, variant, str(shape).replace(" ", "").replace(",", "_").strip("()")))
+            finish(rep, nat, name, res, box, "elem", [codec, vrn, variant, shape], "c04_elem_%s_%s_%s_%s" % (codec, vrn, variant, re.sub(r"[^A-Za-z0-9]+", "_", str(shape).encode("ascii", "backslashreplace").decode()).strip("_")))
 
 
 def model_int(model, name, bits, default=0x41):
@@ -439,12 +456,14 @@ def finish(rep, nat, name, res, box, kind, spec, replay_name):
     if kind == "elem":
         codec, vrn, variant, shape = spec
         g = model_int(model, "g", 16, 0x0010); e = model_int(model, "e", 16, 0x0010); hl = model_int(model, "hdr_len", 32, 7)
-        if variant == "Str": vals = ["".join("%02x" % model_int(model, "s_%d" % k, 8) for k in range(shape)) or "-"]
+        if variant == "StrC": vals = [shape.encode("utf-8").hex()]
+        elif variant == "StrsC": vals = [x.encode("utf-8").hex() for x in shape]
+        elif variant == "Str": vals = ["".join("%02x" % model_int(model, "s_%d" % k, 8) for k in range(shape)) or "-"]
         elif variant == "Strs": vals = ["".join("%02x" % model_int(model, "s%d_%d" % (i, k), 8) for k in range(n)) or "-" for i, n in enumerate(shape)]
         elif variant == "Tags": vals = [model_int(model, "tg", 16, 8), model_int(model, "te", 16, 0x18)]
         elif variant == "Empty": vals = []
         else: vals = [model_int(model, "x%d" % k, 64 if variant in ("U64", "I64") else (32 if variant in ("U32", "I32") else (16 if variant in ("U16", "I16") else 8)), 1 + k) for k in range(shape)]
-        real = nat.ask("c04_elem", codec, "%04x" % g, "%04x" % e, vrn, hl, variant, *vals)
+        real = nat.ask("c04_elem", codec, "%04x" % g, "%04x" % e, vrn, hl, {"StrC": "Str", "StrsC": "Strs"}.get(variant, variant), *vals)
         real_problems = check_real_elem(real, codec, vrn)
     else:
         real = nat.ask("c04_tokens", *spec(model))
